@@ -270,7 +270,7 @@ class Engine(object):
             self._steps = 0
             self._tyenv = {}
             res = self.run_body(st, body, list(args), 0, ("entry", 0))
-            out = [Path(*self.settle(s, r), entry=body.path) for (s, r) in res]
+            out = [Path(*self.settle(s, r), entry=body.path) for (s, r) in res if not self.contradictory_emptiness(s)]
             self.stat_paths += len(out)
             return out
         finally:
@@ -1273,6 +1273,30 @@ class Engine(object):
             return self.call_named(st, f[1], f[2], f[2], UNHD(f[3]), args, site, depth, None)
         return [(st, ("call", "<indirect>", (self.val(st, f),) + tuple(self.val(st, a) for a in args)))]
 
+    def contradictory_emptiness(self, st):
+        """two loops walk the same input collection (a parameter or a field of one: an immutable value) and one finds it empty while
+        the other takes an element from it - the 0/1-iteration approximation of each loop separately produced a path that is not
+        an execution"""
+        seen = {}
+        for e in st.effects:
+            if e.kind != "loop_enter":
+                continue
+            for c in st.conds:
+                t = c[0]
+                if t[0] == "calli" and t[1] == "next" and t[2] and t[2][0][0] == "loopvar" and t[2][0][1] == e.name and t[2][0][3] == 0 \
+                        and c[1] in ("Some", "None"):
+                    coll = e.value.get(t[2][0][2]) if isinstance(e.value, dict) else None
+                    n = 0
+                    while coll is not None and coll[0] == "call" and coll[2] and n < 6 and \
+                            coll[1].split("::")[-1] in ("iter", "into_iter", "cloned", "copied", "by_ref", "enumerate", "rev", "as_slice", "deref"):
+                        coll, n = coll[2][0], n + 1
+                    if coll is None or contains_kind(coll, ("call", "calli", "unknown", "loopvar", "may_load", "load")):
+                        break
+                    if seen.setdefault(coll, c[1]) != c[1]:
+                        return True
+                    break
+        return False
+
     def bind_generics(self, b, dp, t, cfid):
         """type parameters of the inlined generic function `b`, bound to the type arguments its call site names (read through
         the caller's own bindings) - lets trait methods called through a type parameter inside `b` be dispatched"""
@@ -1408,6 +1432,10 @@ def mkcmp(op, a, b):
         except TypeError:
             pass
     if op == "eq":
+        # `flag == true` is the flag, `flag == false` its negation (ensure_eq!(x.is_admin(..), true, ..))
+        for x, y in ((a, b), (b, a)):
+            if y[0] == "lit" and isinstance(y[1], bool) and x[0] != "lit":
+                return x if y[1] else negate(x)
         # field-less enum variants / identical terms
         if a == b and not contains_kind(a, ("unknown", "calli")):
             return TRUE
